@@ -36,6 +36,25 @@ def has_var_cycle(entries):
         if cyc: return True
     return False
 
+def has_cycle(entries):
+    """any cycle of bindings, also through compound terms and lists (x -> f(y), y -> x)"""
+    state = {}
+    def vars_of(t, acc):
+        if is_var(t): acc.append(int(t[1]))
+        elif isinstance(t, list):
+            for x in t[1:]: vars_of(x, acc)
+        return acc
+    def visit(i):
+        if i >= len(entries) or entries[i] is None: return False
+        if state.get(i) == 1: return True
+        if state.get(i) == 2: return False
+        state[i] = 1
+        for j in vars_of(entries[i], []):
+            if visit(j): return True
+        state[i] = 2
+        return False
+    return any(visit(i) for i in range(len(entries)))
+
 def binds_anon(entries):
     return any(e == "anon" for e in entries)
 
